@@ -1,2 +1,3 @@
+pub mod chart;
 pub mod lex;
 pub mod subst;
